@@ -48,7 +48,7 @@ def kinds_for(ty, tier, rng):
     if tier == "quick":
         must = [k for k in ks if k[0] in ("u64", "i64", "f64", "unit")]
         rest = [k for k in ks if k not in must]
-        ks = must + rng.sample(rest, 3)
+        ks = must + rng.sample(rest, 2)
     return ks
 
 
@@ -134,7 +134,7 @@ def generate(tier, seed):
     first = True
     for ty in types:
         fl = is_float(ty)
-        combos = list(bound_combos()) if tier == "thorough" else [[], ["gt", "le"], ["ge", "lt"]]
+        combos = list(bound_combos()) if tier == "thorough" else ([[], ["gt", "le"], ["ge", "lt"]] if ty in ("i32", "f64") else [[], ["gt", "le"]])
         for bc in combos:
             for fin in ([False, True] if fl else [False]):
                 base = list(bc) + (["finite"] if fin else [])
@@ -152,7 +152,7 @@ def generate(tier, seed):
                             hsrc += top_harness(d, hn + "_must_fail", kind, evexpr, sabotage=True)
                             plan.add(H(hn + "_must_fail", "must_fail", {"sabotage": "oracle ignores the sanitizer"}))
                             first = False
-                    if (tier == "thorough" and s) or (ty in ("i32", "f64") and v in ([], ["gt", "le", "pred"])):
+                    if (tier == "thorough" and s) or (ty == "i32" and v in ([], ["gt", "le", "pred"])) or (ty == "f64" and v == ["gt", "le", "pred"]):
                         nsrc, nhs = nested_harnesses(d, "c04_nested_" + m)
                         hsrc += nsrc
                         for h in nhs:
